@@ -231,12 +231,24 @@ def gen_case(seed, idx, tier):
             lines.append(rng.choice(["", "# comment -x", "#"]))
     if rng.random() < 0.3:
         lines.insert(0, "# leading comment")
+    # nested argument files: a line of the file names another argument file (--arg-file) whose lines are evaluated in place;
+    # the lines behind the include are still "read from a file" (can be overridden on argv without a cardinality error)
+    nested = None
+    if len(lines) >= 2 and rng.random() < 0.3:
+        i = rng.randint(0, len(lines) - 2)
+        j = rng.randint(i + 1, len(lines) - 1)
+        inner_lines = lines[i:j]
+        inc = rng.choice(['--arg-file=@HOME@/inner/args.txt', '--arg-file @HOME@/inner/args.txt'])
+        lines = lines[:i] + [inc] + lines[j:]
+        nested = "\n".join(inner_lines) + rng.choice(["\n", ""])
     last_nl = rng.random() < 0.5
     ftext = "\n".join(lines) + ("\n" if (last_nl and lines) else "")
     etext = " ".join(quote(w) for w in ew)
     # the file is either the default program-argument file or an explicit one named with --arg-file on argv (then it is
     # evaluated where the argument stands: before the rest of argv, after the environment variable)
     explicit = bool(lines) and rng.random() < 0.3 and not multi
+    if nested is not None:
+        cfg.arg_file_key = "arg-file"
     if explicit:
         cfg.flags &= ~HF["readProgArg"]
         cfg.arg_file_key = "arg-file"
@@ -246,6 +258,8 @@ def gen_case(seed, idx, tier):
             aw.insert(1, "@HOME@/my args/file.txt")
     else:
         cfg.files = [(".progargs/prog.pa", ftext)] if lines else []
+    if nested is not None:
+        cfg.files = list(cfg.files) + [("inner/args.txt", nested)]
     cfg.env = [("PROG", etext)] if ew else []
     # expected by the model: fold over file + env + argv, cardinality only for argv uses
     allu = (epart + fpart + apart) if explicit else (fpart + epart + apart)
@@ -256,7 +270,7 @@ def gen_case(seed, idx, tier):
         return c
     if multi:
         exp[multi[0].slot] = multi[1]
-    c.meta.update(multi=multi[2] if multi else None, explicit=explicit)
+    c.meta.update(multi=multi[2] if multi else None, explicit=explicit, nested=nested is not None)
     c.meta.update(cfg=cfg, exp=exp, parts=(fpart, epart, apart), override=override, last_nl=last_nl, nsrc=sum(1 for p in (fpart, epart, apart) if p))
     c.add("c07", lambda sid: argh.scenario_text(sid, "sources", cfg, aw))
     if not override:
@@ -309,6 +323,8 @@ def judge(c, results, rep):
         rep.stat("sources.multi_value_list_continues_%s" % c.meta["multi"])
     if c.meta.get("explicit"):
         rep.stat("sources.explicit_arg_file_argument")
+    if c.meta.get("nested"):
+        rep.stat("sources.nested_argument_file")
     dumps = []
     for k, (sid, text) in enumerate(c.scenarios):
         r = results[sid]
